@@ -488,6 +488,8 @@ def run_sharded(u, cbmc, flags, gbi, d, log):
         smt_names = [n for n in names if rx.search(n)]
         names = [n for n in names if not rx.search(n)]
     nsh = max(1, u.shards)
+    # the obligation names travel on the command line: keep each shard's share well below ARG_MAX
+    nsh = max(nsh, (sum(len(n) + 12 for n in names) // 60000) + 1)
     groups = [names[i::nsh] for i in range(nsh)]
     groups = [g for g in groups if g]
     smt_groups = [[n] for n in smt_names]
@@ -510,7 +512,7 @@ def run_sharded(u, cbmc, flags, gbi, d, log):
         if "too many addressed objects" in (r[1] + r[2]):
             return (r[0], "VERIFICATION ERROR object-bits", r[2], r[3], False)
         return r
-    with ThreadPoolExecutor(max_workers=len(groups)) as ex:
+    with ThreadPoolExecutor(max_workers=min(len(groups), 16)) as ex:
         rs = list(ex.map(one, groups))
     # shards that ran out of time are re-split (up to u.resplit rounds) so
     # that a few slow obligations do not hide the others
